@@ -62,3 +62,43 @@ func VerifHarness_C10_readfrom_step() {
 	vCover(vAnd(ok, conn.reads == 2), "C10.cover_frame_completed_by_second_read")
 	vReach("end")
 }
+
+// The caller reuses its read buffer: bytes the packetiser keeps for the next frame must not live in it.
+//
+//verif:props=C10 unwind=80 bounds="one read delivering a complete 8-byte ChannelData frame plus 1..8 bytes of the next frame into a 16-byte caller buffer, which is then overwritten"
+func VerifHarness_C10_readfrom_keeps_its_own_bytes() {
+	num := vU16()
+	vAssume(vAnd(num >= 0x4000, num <= 0x7FFF))
+	frame := []byte{byte(num >> 8), byte(num), 0, 4, vU8(), vU8(), vU8(), vU8()}
+	extra := vBytesN(vPick(1, 8))
+	conn := &vOneShotConn{data: append(append([]byte{}, frame...), extra...)}
+	s := &STUNConn{nextConn: conn}
+	payload := make([]byte, 16)
+	n, _, err := s.ReadFrom(payload)
+	vAssert(err == nil && n == 8, "C10.first_frame_returned_whole")
+	for i := range payload { // the application reuses its buffer
+		payload[i] = 0xEE
+	}
+	vAssert(len(s.buff) == len(extra), "C10.rest_of_the_read_is_kept")
+	ok := true
+	for i := 0; i < len(extra); i++ {
+		ok = vAnd(ok, vAt(s.buff, i) == extra[i])
+	}
+	vAssert(ok, "C10.kept_bytes_do_not_alias_the_callers_buffer")
+	vReach("end")
+}
+
+type vOneShotConn struct {
+	net.Conn
+	data []byte
+	done bool
+}
+
+func (c *vOneShotConn) Read(p []byte) (int, error) {
+	if c.done {
+		return 0, io.EOF
+	}
+	c.done = true
+	return copy(p, c.data), nil
+}
+func (c *vOneShotConn) RemoteAddr() net.Addr { return nil }
